@@ -1,6 +1,6 @@
 ------------------------------ MODULE GenHop ------------------------------
 EXTENDS Hop, Json
-Emit == PrintT(ToJson([proto |-> inp.proto, method |-> IF HasBody(inp) THEN "POST" ELSE "GET", target |-> "/hop",
+Emit == done => PrintT(ToJson([proto |-> inp.proto, method |-> IF HasBody(inp) THEN "POST" ELSE "GET", target |-> "/hop",
                        fields |-> Sent(inp), body |-> IF HasBody(inp) THEN "hello" ELSE "", chunked |-> HasBody(inp),
                        expP |-> [forbid |-> Forbid(inp), only |-> Only(inp)],
                        expM |-> [fwd |-> FwdM(inp)]]))
